@@ -106,7 +106,7 @@ theorem closed_socket_all_gone (tr : List (LOp × List Nat)) (s : Nat) (hc : ((r
         have h2 := inv.g.s.pipesOpen p hp hl e he hi
         have h3 := hepc e he (h1.trans hs)
         rw [h2] at h3; cases h3
-    exact ⟨hr, (run_inv tr {} init_inv p hp).rem_due hr⟩
+    exact ⟨hr, (run_inv tr {} init_inv p hp).rem_post hr⟩
   · intro c hcm hs
     cases hcl : c.closed with
     | true => rfl
